@@ -132,7 +132,7 @@ VH_OP(dec) { return decode_bytes(vh::unhex(a[2]), a[1]); }
 
 // encdec <enc args…>: encode, then decode the produced bytes followed by optional trailing bytes
 //   (token trail=<hex>), normally and (token skip=<types>) with attribute transforms skipped:
-//   -> ok <hex> <nep> <nef> | <dec result> | <dec result with skip, or ->
+//   -> ok <hex> <nep> <nef> | <dec result> | <dec result with all transforms skipped> | <dec result with skip=<types>, or ->
 VH_OP(encdec) {
   std::string e = op_enc(a);
   if (e.rfind("ok ", 0) != 0) return e;
@@ -148,5 +148,6 @@ VH_OP(encdec) {
     }
     if (a[i].rfind("skip=", 0) == 0) skip = a[i].substr(5);
   }
-  return e + " | " + decode_bytes(d, "-") + " | " + (skip.empty() ? std::string("-") : decode_bytes(d, skip));
+  return e + " | " + decode_bytes(d, "-") + " | " + decode_bytes(d, "01234") + " | " +
+         (skip.empty() ? std::string("-") : decode_bytes(d, skip));
 }
